@@ -166,6 +166,7 @@ def _cells_child(shape: Shape, hist: List[Dict[str, Any]], root: str, env: Dict[
         rpath = [x["path"] for x in shape.roots if x["f"] == rootf][0]
         o: Dict[str, Any] = {"op": "eval"}
         try:
+            common.arm(120)
             fun = sh.user_ns[rootf]
             rspec = [x for x in shape.roots if x["f"] == rootf][0]
             args = [L.ARG_VALS[prog["rarg"][rec.get("ri", 1) - 1]]] if rspec.get("arg") else []
@@ -183,6 +184,7 @@ def _cells_child(shape: Shape, hist: List[Dict[str, Any]], root: str, env: Dict[
         o["log"] = list(L.LOG)
         o["ops"] = list(ops)
         out[str(h)] = o
+    common.disarm()
     return out
 
 
